@@ -351,6 +351,8 @@ func main() {
 	} else {
 		valFmt = append(valFmt, plain[0])
 	}
+	stFmt := fp("stats/stats_reporter.go", 7, []string{"  Database file:      %s\n", "  Database records:   %d\n", "  Log file:           %s\n",
+		"  Log records:        %d\n", "  Today:              %s\n", "  First record:       %s (%d days ago)\n", "  Last record:        %s (%d days ago)\n"})
 	lFmt, lW, lHead := templateFacts(str(reg, "leftAlignedTemplate", ""), "register.leftAlignedTemplate",
 		[]string{"  %s  %s", "  %s    %s", "  %s %s = %s  %s"}, []int{},
 		"------------------------------------------------------- TOTAL --")
@@ -444,6 +446,8 @@ func main() {
 	w("def printFormats : List (List UInt8) := %s", bytesLits(prFmt))
 	w("/-- reporter.getFormatValue: the format used for a value > 0, for a value < 0, and without colour / for 0 -/")
 	w("def valueFormats : List (List UInt8) := %s", bytesLits(valFmt))
+	w("/-- stats_reporter.go: the seven lines -/")
+	w("def statsFormats : List (List UInt8) := %s", bytesLits(stFmt))
 	w("def regLeftTotalsHead : List UInt8 := %s", bytesLit(lHead))
 	w("")
 	w("end Hrano.Facts")
